@@ -1,9 +1,15 @@
+pub mod c15;
+pub mod c16;
 pub mod c21;
+pub mod c29;
 
 use crate::common::{Ctx, Report};
 pub fn dispatch(p: &str, ctx: &Ctx) -> Option<Report> {
     Some(match p {
+        "C15" => c15::run(ctx),
+        "C16" => c16::run(ctx),
         "C21" => c21::run(ctx),
+        "C29" => c29::run(ctx),
         _ => return None,
     })
 }
